@@ -2,7 +2,7 @@
  *
  * usage: tgt <scenario-file>
  * The scenario is a list of lines:
- *   thread <kind> <sp_off> <stack_pages> <name-hex|->     kind: block | spin | nullsp | exiter
+ *   thread <kind> <sp_off> <stack_pages> <name-hex|->     kind: block | spin | nullsp | exiter | vforker
  *   anon <pages> <perms rwx-> <unmap_after 0|1>            anonymous mapping with address-derived fill
  *   file <path> <offset> <pages> <perms>                   file mapping
  *   appmem <anon-index> <offset> <len>                     application memory region (reported on stdout)
@@ -11,7 +11,10 @@
  * After setup it prints one line "READY pid=<pid> shared=<memfd path> ..." and key=value facts, then obeys
  * single-letter commands on stdin: 'x <idx>' make exiter thread idx exit, 'q' quit.
  * Shared page layout (uint64 slots): [0..63] heartbeat per thread, [64..127] signal counts per thread,
- * [128..191] spin counters (application-memory copy).
+ * [128..191] spin counters (application-memory copy), [192..255] pid of a vforker thread's current child
+ * (0 while there is none), [256..319] counts of non-realtime signals (SIGUSR1/SIGUSR2) per thread.
+ * A vforker thread sits in the kernel's uninterruptible vfork wait (state D) until its child is killed; signals
+ * sent to it meanwhile stay queued on the thread, and an attach completes only once the child is gone.
  */
 #define _GNU_SOURCE
 #include <elf.h>
@@ -29,10 +32,11 @@
 #include <sys/prctl.h>
 #include <sys/socket.h>
 #include <sys/syscall.h>
+#include <sys/wait.h>
 #include <unistd.h>
 
 #define MAXT 64
-enum kind { K_BLOCK, K_SPIN, K_NULLSP, K_EXITER };
+enum kind { K_BLOCK, K_SPIN, K_NULLSP, K_EXITER, K_VFORKER };
 struct tcfg { enum kind kind; unsigned sp_off; unsigned pages; char name[16]; int has_name; int idx;
               uint64_t sp; volatile int go_exit; pthread_t th; pid_t tid; };
 static struct tcfg T[MAXT]; static int NT;
@@ -43,7 +47,7 @@ extern char blk_after_syscall[], spin_loop[];
 static void on_rt(int sig, siginfo_t *si, void *uc) {
   (void)si; (void)uc;
   pid_t me = syscall(SYS_gettid);
-  for (int i = 0; i < NT; i++) if (T[i].tid == me) { __sync_fetch_and_add(&SH[64 + i], 1); return; }
+  for (int i = 0; i < NT; i++) if (T[i].tid == me) { __sync_fetch_and_add(&SH[64 + i], 1); if (sig < 32) __sync_fetch_and_add(&SH[256 + i], 1); return; }
   if (me == getpid()) __sync_fetch_and_add(&SH[64 + 63], 1);
   (void)sig;
 }
@@ -54,6 +58,15 @@ static void *thr(void *arg) {
   if (c->has_name) prctl(PR_SET_NAME, c->name);
   __sync_fetch_and_add(&ready, 1);
   if (c->kind == K_EXITER) { while (!c->go_exit) { SH[c->idx]++; usleep(1000); } return 0; }
+  if (c->kind == K_VFORKER) {
+    for (;;) {
+      pid_t p = vfork();
+      if (p == 0) { prctl(PR_SET_PDEATHSIG, SIGKILL); SH[192 + c->idx] = (uint64_t)syscall(SYS_getpid); for (;;) syscall(SYS_pause); }
+      SH[192 + c->idx] = 0;
+      if (p > 0) waitpid(p, 0, 0); else usleep(1000);
+      SH[c->idx]++;
+    }
+  }
   if (c->kind == K_NULLSP) { __asm__ volatile("xor %%rsp,%%rsp\n1: jmp 1b" ::: "memory"); }
   if (c->kind == K_SPIN) {
     /* counter in r12, in the stack slot 8(%rsp), and in the application-memory word */
@@ -92,13 +105,14 @@ int main(int argc, char **argv) {
   SH = mmap(0, 4096, PROT_READ | PROT_WRITE, MAP_SHARED, mfd, 0);
   struct sigaction sa; memset(&sa, 0, sizeof sa); sa.sa_sigaction = on_rt; sa.sa_flags = SA_SIGINFO | SA_RESTART;
   for (int s = SIGRTMIN; s < SIGRTMIN + 8; s++) sigaction(s, &sa, 0);
+  sigaction(SIGUSR1, &sa, 0); sigaction(SIGUSR2, &sa, 0);
   FILE *f = fopen(argv[1], "r"); if (!f) return 3;
   char line[1024]; char facts[8192]; int fl = 0;
   while (fgets(line, sizeof line, f)) {
     char a[64], b[512]; unsigned u1, u2, u3; unsigned long ul1;
     if (sscanf(line, "thread %63s %u %u %511s", a, &u1, &u2, b) == 4) {
       struct tcfg *t = &T[NT]; t->idx = NT; t->sp_off = u1; t->pages = u2;
-      t->kind = !strcmp(a, "spin") ? K_SPIN : !strcmp(a, "nullsp") ? K_NULLSP : !strcmp(a, "exiter") ? K_EXITER : K_BLOCK;
+      t->kind = !strcmp(a, "spin") ? K_SPIN : !strcmp(a, "nullsp") ? K_NULLSP : !strcmp(a, "exiter") ? K_EXITER : !strcmp(a, "vforker") ? K_VFORKER : K_BLOCK;
       t->has_name = strcmp(b, "-") != 0; if (t->has_name) unhex(b, t->name, 16);
       /* stack: [unmapped guard][pages][unmapped]; sp inside the last page of the stack at the chosen offset */
       unsigned char *m = mmap(0, (size_t)(u2 + 2) * 4096, PROT_READ | PROT_WRITE, MAP_PRIVATE | MAP_ANONYMOUS, -1, 0);
@@ -164,8 +178,10 @@ int main(int argc, char **argv) {
   printf("READY pid=%d shared=/proc/%d/fd/%d blk=%lx spin=%lx", getpid(), getpid(), mfd, (unsigned long)blk_after_syscall, (unsigned long)spin_loop);
   for (int i = 0; i < NT; i++) printf(" t%d.tid=%d", i, T[i].tid);
   printf("%s\n", facts); fflush(stdout);
-  if (main_exits) pthread_exit(0);   /* the thread-group leader becomes a zombie, the other threads live on */
   char cmd[64];
+  /* the thread-group leader becomes a zombie, the other threads live on; it waits for a line first, so that the
+     harness has opened the shared page (a zombie leader's /proc/<pid>/fd is gone) */
+  if (main_exits) { if (!fgets(cmd, sizeof cmd, stdin)) return 0; pthread_exit(0); }
   while (fgets(cmd, sizeof cmd, stdin)) {
     unsigned i; if (cmd[0] == 'q') break;
     if (sscanf(cmd, "x %u", &i) == 1 && i < (unsigned)NT) { T[i].go_exit = 1; pthread_join(T[i].th, 0); printf("EXITED %u\n", i); fflush(stdout); }
